@@ -557,3 +557,102 @@ def cyclic_catalogue():
     g("choicepredindirect", [top(), rule("A", choice(not_(any_()), ref("P"), lit("a"))), rule("P", seq(ref("A"), lit(":"), ref("A")))])
     g("choicepredn", [top(), rule("A", choice(not_(lit("x")), seq(ref("N"), ref("A"), lit("y")))), rule("N", opt(lit("n")))])
     return out
+
+
+# ------------------------------------------------------------------ seeded random grammars (program dimension)
+
+def _nullable(e, rules_null):
+    k = e["k"]
+    if k == "lit": return e["v"] == ""
+    if k in ("cls", "any"): return False
+    if k == "seq": return all(_nullable(x, rules_null) for x in e["kids"])
+    if k == "choice": return any(_nullable(x, rules_null) for x in e["kids"])
+    if k in ("star", "opt", "and", "not", "andcode", "notcode", "state"): return True
+    if k == "plus": return _nullable(e["kids"][0], rules_null)
+    if k in ("label", "act"): return _nullable(e["kids"][0], rules_null)
+    if k == "ref": return rules_null.get(e["name"], False)
+    if k == "recover": return _nullable(e["kids"][0], rules_null) or _nullable(e["kids"][1], rules_null)
+    if k == "throw": return True
+    return False
+
+
+def random_grammars(seed, count, features=("pred", "label", "act"), depth=3):
+    """Seeded random well-formed grammars: 2-3 rules (acyclic references), expression depth <= 3,
+    terminals over {a,b,c}, no repetition over a nullable body. The entry rule wraps its body in a
+    record action so that success is observable."""
+    rnd = random.Random(seed)
+    out = []
+    terms = [lambda: lit("a"), lambda: lit("b"), lambda: lit("ab"), lambda: lit("c"), lambda: lit("B", i=True),
+             lambda: cls(ranges=[("a", "b")]), lambda: cls(chars="bc"), lambda: cls(chars="a", inv=True), lambda: any_(),
+             lambda: cls(chars="c", i=True)]
+    n = 0
+    attempts = 0
+    while len(out) < count and attempts < count * 20:
+        attempts += 1
+        lower = ["Y", "Z"][: rnd.randint(1, 2)]
+        null = {}
+        labels = [0]
+
+        def gen(depth, refs):
+            r = rnd.random()
+            if depth <= 0 or r < 0.25:
+                if refs and rnd.random() < 0.3:
+                    return ref(rnd.choice(refs))
+                return rnd.choice(terms)()
+            kinds = ["seq", "seq", "choice", "choice", "star", "plus", "opt", "and", "not", "label", "act", "group"]
+            if "state" in features:
+                kinds += ["state", "state", "obs"]
+            if "throw" in features:
+                kinds += ["throw", "recover", "recover"]
+            kind = rnd.choice(kinds)
+            if kind == "state":
+                return seq(state(s_inc("k")), gen(depth - 1, refs))
+            if kind == "obs":
+                return seq(andcode(p_state("k", rnd.randint(0, 2))), gen(depth - 1, refs))
+            if kind == "throw":
+                return choice(gen(depth - 1, refs), throw(rnd.choice(["l1", "l2"])))
+            if kind == "recover":
+                labs = rnd.choice([["l1"], ["l2"], ["l1", "l2"]])
+                return recover(gen(depth - 1, refs), labs, act(rnd.choice(terms)(), b_rec()))
+            if kind == "seq":
+                return seq(*[gen(depth - 1, refs) for _ in range(rnd.randint(2, 3))])
+            if kind == "choice":
+                return choice(*[gen(depth - 1, refs) for _ in range(rnd.randint(2, 3))])
+            if kind in ("star", "plus"):
+                for _ in range(8):
+                    body = gen(depth - 1, refs)
+                    if not _nullable(body, null):
+                        return star(body) if kind == "star" else plus(body)
+                return plus(rnd.choice(terms[:4])())
+            if kind == "opt":
+                return opt(gen(depth - 1, refs))
+            if kind == "and" and "pred" in features:
+                return and_(gen(depth - 1, refs))
+            if kind == "not" and "pred" in features:
+                return not_(gen(depth - 1, refs))
+            if kind == "label" and "label" in features:
+                labels[0] += 1
+                return label("v%d" % labels[0], gen(depth - 1, refs))
+            if kind == "act" and "act" in features:
+                return act(gen(depth - 1, refs), b_rec() if rnd.random() < 0.7 else b_text())
+            return gen(depth - 1, refs)
+
+        rules = []
+        defs = {}
+        for i, nm in enumerate(reversed(lower)):
+            avail = [x for x in defs]
+            e = gen(depth - 1, avail)
+            defs[nm] = e
+            null[nm] = _nullable(e, null)
+        body = gen(depth, list(defs))
+        labels[0] += 1
+        rules.append(rule("S", act(seq(label("v%d" % labels[0], body), label("rest", opt(any_()))), b_rec("s"))))
+        for nm in lower:
+            rules.append(rule(nm, defs[nm]))
+        n += 1
+        if "state" in features and not has_state_block({"rules": rules}):
+            # c.state only exists in an optimized parser when the grammar has a state block
+            rules[0]["expr"]["kids"][0]["kids"].insert(0, state(s_inc("k")))
+        g = grammar("rnd%s%d_%d" % ("".join(f[0] for f in features if f in ("state", "throw")), seed, n), rules, tags=["random"])
+        out.append(g)
+    return out
